@@ -10,6 +10,8 @@ structure St where
   g : Globals := {}
   stored : Upgrade.Upgrade := {}
   ready : Bool := false
+  /-- an accepted upgrade went through the pre-codec branch of `HandleUpgrade` in this scenario -/
+  preCodec : Bool := false
 
 def field (pfx : String) (w : String) : Option String :=
   if w.startsWith pfx then some (w.drop pfx.length).toString else none
@@ -67,7 +69,7 @@ def step (s : St) (pre post : List String) : St × Verdict :=
     match post with
     | [a, b, c, d, e, f, g] =>
       match parseGlob [a, b, c], parseStored [d, e, f, g] with
-      | some gl, some st => ({ g := gl, stored := st, ready := true }, .ok)
+      | some gl, some st => ({ g := gl, stored := st, ready := true, preCodec := false }, .ok)
       | _, _ => (s, .bad "init")
     | _ => (s, .bad "init arity")
   | ["blocks", _, h] =>
@@ -85,7 +87,7 @@ def step (s : St) (pre post : List String) : St × Verdict :=
     | [code, a, b, c, d, e, f, g] =>
       match parseGlob [a, b, c], parseStored [d, e, f, g], h.toInt?, mh.toInt?, Bytes.parse mv, parseHexList mf with
       | some gl, some st, some hi, some mhi, some mvb, some mfl =>
-        let s' : St := { s with g := gl, stored := st }
+        let s' : St := { s with g := gl, stored := st, preCodec := s.preCodec || (code = "0" && !isAfterUpgradeHeight s.g hi) }
         let line := s!"upg {sc} h={h} {who} msgHeight={mh} code={code}"
         let changed := !sameGlob gl s.g || st != s.stored
         -- executable spec, on the implementation's outputs alone
@@ -117,14 +119,15 @@ def step (s : St) (pre post : List String) : St × Verdict :=
         let lost := live.featureMap.filter fun e => e.2 ≠ 0 && rest.featureMap.get e.1 = 0
         let gained := rest.featureMap.filter fun e => e.2 ≠ 0 && live.featureMap.get e.1 = 0
         if !lost.isEmpty then
-          (s, .propfail "chain-restart-loses-features" s!"{line}: scheduled on the running node, absent after restart: {showFM lost} (stored upgrade height {st.height})")
+          -- the excluded point of `restart_same_schedule` (stored upgrade height 0) has its own signature
+          (s, .propfail (if st.height = 0 then "chain-restart-loses-features-height0" else "chain-restart-loses-features") s!"{line}: scheduled on the running node, absent after restart: {showFM lost} (stored upgrade height {st.height})")
         else if !gained.isEmpty then
-          (s, .propfail "chain-restart-gains-features" s!"{line}: absent on the running node, scheduled after restart: {showFM gained}")
+          (s, .propfail (if s.preCodec then "chain-restart-gains-features-precodec" else "chain-restart-gains-features") s!"{line}: absent on the running node, scheduled after restart: {showFM gained}")
         else if !sameFM live.featureMap rest.featureMap then
           (s, .propfail "chain-restart-schedule-differs" s!"{line}: live {showFM live.featureMap} restarted {showFM rest.featureMap}")
         else if lp ≠ rp then (s, .propfail "chain-restart-predicate-differs" line)
         else if live.upgradeHeight ≠ rest.upgradeHeight || live.oldUpgradeHeight ≠ rest.oldUpgradeHeight then
-          (s, .propfail "chain-restart-heights-differ" s!"{line}: live UH={live.upgradeHeight} OUH={live.oldUpgradeHeight} restarted UH={rest.upgradeHeight} OUH={rest.oldUpgradeHeight}")
+          (s, .propfail (if st.height = 0 then "chain-restart-heights-differ-height0" else "chain-restart-heights-differ") s!"{line}: live UH={live.upgradeHeight} OUH={live.oldUpgradeHeight} restarted UH={rest.upgradeHeight} OUH={rest.oldUpgradeHeight}")
         else
           -- model: the restart block of NewPocketCoreApp and the predicates
           if st != s.stored || !sameGlob live s.g then (s, .diff s!"{line}: state moved between the last line and the restart")
